@@ -36,4 +36,4 @@ INIT Init
 NEXT Next
 VIEW View
 CHECK_DEADLOCK FALSE
-INVARIANTS I_CallbackOrder I_CallbackStates
+INVARIANTS I_StaleErrStopIsNoop
